@@ -24,6 +24,47 @@ CLAIMED = {
         "stand-in, model and implementation must agree on every cell, and the Lean spec (sound + complete) is evaluated on the "
         "implementation's own outcome.",
         SP_NOTE, "DESIGN.md section 6 C01 + shared SP model"),
+    "C03": (
+        "Lean 4 theorems over an executable key-selection model + exhaustive differential correspondence through the xmlsec1 stand-in",
+        "Machine-checked proof (Lean 4): for every metadata shape, issuer, signing key and embedded KeyInfo, the model of MetaData.certs + "
+        "SecurityContext._check_signature + the xmlsec1 command line (--enabled-key-data raw-x509-cert) + Request._do_redirect_sig_check "
+        "accepts a signature only if the signing key is published for signing (or without use) under the claimed issuer, or "
+        "only_use_keys_in_metadata is off, nothing is bound to that issuer and the key is that of an embedded certificate; corollaries for "
+        "encryption-only/other-member/own/attacker keys, unknown issuer, KeyInfo-independence under the default, Redirect metadata-only; a "
+        "counter-theorem shows the xmlsec flag is necessary (15 theorems). The option default and the role list of MetaData.certs are "
+        "regenerated each run. Every run enumerates the complete 6x3x4x2x6 product (864 cells) plus default-config column, corrupted "
+        "signatures, issuer look-alikes and random metadata shapes against the real Saml2Client/Server/Entity and evaluates the Lean spec on "
+        "the implementation's own accept/refuse.",
+        "Trusted: Lean kernel (+leanchecker thorough); propext/Classical.choice/Quot.sound; the stand-in's key-selection model (embedded key "
+        "preferred unless restricted) and its real RSA; ideal signatures; harness (metadata writer, message builder, matching of certificate "
+        "files handed to the stand-in, translator harness/translate/keys.py); mdstore XML->dict conversion exercised, not modelled. Single source.",
+        "DESIGN.md section 6 C03"),
+    "C10": (
+        "Lean 4 theorems over an executable model of release filtering + regenerated entity-category tables + differential correspondence",
+        "Machine-checked proof (Lean 4), 24 obligations: subset, multiplicity, permitted (restrictions / entity categories / requested "
+        "attributes), missing-required error, policy precedence and model-meets-spec are proved for every identity, policy, metadata and "
+        "regex match matrix for Policy.filter/restrict/apply_policy/setup_assertion(best_effort=False)/create_attribute_response; "
+        "create_authn_response is proved only under restrictMissing = false, with C10_response_counterexample for the known finding "
+        "C10/missing-required-releases-unfiltered. Entity-category tables are regenerated each run (three table lemmas). Every run executes "
+        "model and real code on ~3.8k generated identities x policies x requester metadata; the caller-identity-unaltered clause is decided "
+        "by a deep before/after comparison in the harness.",
+        "Trusted: Lean kernel (+leanchecker thorough); propext/Quot.sound; harness; metadata XML -> mdstore lookups; str.lower and re.match "
+        "evaluated by Python and passed as parameters; attribute-converter tables (C17); translator entity_categories.py (table contents "
+        "beyond the pinned facts are the policy itself). Identity values are str or list of str.",
+        "DESIGN.md section 6 C10"),
+    "C15": (
+        "Lean 4 theorems over an executable model of the redirect signer/verifier/receiver with ideal signatures and a parametric URL encoder; regenerated tables; byte-exact differential run",
+        "Machine-checked proof (Lean 4), ~30 obligations: for every message value, relay state, key, received dictionary and certificate "
+        "list, every URL encoder that is injective and never emits '&' or '=' (the executable quote_plus model is proved lawful), and the "
+        "algorithm/order tables of the current source (regenerated each run, proved equal to the expected ones): a signed URL verifies under "
+        "the signer's certificate; the signed octet string is injective; any change to message value or direction, RelayState, SigAlg, the "
+        "signature octets or the key fails; disallowed algorithms are refused; an unsupported SigAlg is never verified and is refused by the "
+        "receiver. Every run executes the real signer, verifier and Server.parse_authn_request with committed RSA keys on ~8.5k generated and "
+        "mutated cases; signed octets are compared byte for byte; the Lean spec is evaluated on the implementation's own output.",
+        "Trusted: Lean kernel (+leanchecker thorough); propext/Classical.choice/Quot.sound; ideal signatures (real RSA octets identified with "
+        "(key, digest, message) terms by trial verification); translator harness/translate/redirect_sig.py; harness. 'Change to the Signature "
+        "parameter' means the octets it denotes (base64 leniency documented by C15_signature_text_literal_counterexample). deflate/parse_qsl belong to C14.",
+        "DESIGN.md section 6 C15"),
     "C04": (
         "Lean 4 theorems (induction over audience/confirmation lists) over the shared SP model + small-scope exhaustive correspondence",
         "Machine-checked proof (Lean 4): for audience structures of any size, any Destination/Recipient strings and any "
